@@ -166,7 +166,7 @@ def render(sk, incdir, variant=0):
     l = "  flags[7] = flags[7] + 0; /* plain statement of skeleton %d */" % k
     lines.append(l)
     exp["plain"].append(l)
-    lines += ["#ifdef MARK_%d" % k, "  flags[5] = 1;", "#endif", "#ifdef INC_%d" % k, "  flags[6] = 1;", "#endif", "#ifdef INCR_%d" % k, "  flags[4] = 1;", "#endif", "#ifdef INC2_%d" % k, "  flags[8] = INC2_%d;" % k, "#endif", "#ifdef C16_EXTRA_HEADER", "  flags[9] = 1;", "#endif", "}"]
+    lines += ["#ifdef MARK_%d" % k, "  flags[5] = 1;", "#endif", "#ifdef INC_%d" % k, "  flags[6] = 1;", "#endif", "#ifdef INCR_%d" % k, "  flags[4] = 1;", "#endif", "#ifdef INC2_%d" % k, "  flags[8] = INC2_%d;" % k, "#endif", "#ifdef C16_EXTRA_HEADER", "  flags[9] = 1;", "#endif", "#ifdef C16_TWICE_B", "  flags[10] = 1;", "#endif", "}"]
     exp["plain"] += ["#ifdef MARK_%d" % k, "  flags[5] = 1;", "#endif", "#ifdef INC_%d" % k, "  flags[6] = 1;", "}"]
     return lines, exp
 
@@ -390,15 +390,18 @@ def run_shard(sks, tier, seed):
         if variant == 1:
             ctxs = [c for c in ctxs if c[0] in ("cpu_serial", "opencl") or (c[0] == "cuda" and c[3] == 2)]
         cwd = os.getcwd()
+        # a re-includable piece of plain text listed TWICE among the sources of the build (the second copy defines another
+        # name than the first): every listed source is part of the build, as often as it is listed
+        twice = "#ifndef C16_TWICE_A\n#define C16_TWICE_A 1\n#else\n#define C16_TWICE_B 1\n#endif\n"
         for label, target, ctx, bs in ctxs:
             os.chdir(work)
             try:
                 if target.startswith("cpu"):
                     # the first build of the process is given an extra header: it belongs to that build only
                     xh = dict(extra_headers=["#define C16_EXTRA_HEADER 1"]) if label == "cpu_serial" else {}
-                    ctx.add_kernels(sources=[Path(src_path)], kernels=kernel_descr(names, bs), extra_compile_args=("-O0", "-w"), extra_link_args=(), **xh)
+                    ctx.add_kernels(sources=[twice, twice, Path(src_path)], kernels=kernel_descr(names, bs), extra_compile_args=("-O0", "-w"), extra_link_args=(), **xh)
                 else:
-                    ctx.add_kernels(sources=[Path(src_path)], kernels=kernel_descr(names, bs))
+                    ctx.add_kernels(sources=[twice, twice, Path(src_path)], kernels=kernel_descr(names, bs))
             except Exception as e:
                 bad("C16.builds", "specialised-source-does-not-build", sks[0], "%s: %s" % (label, str(e)[-1500:]), target=target)
                 continue
@@ -423,7 +426,7 @@ def run_shard(sks, tier, seed):
                         pre = []
                     c0 = np.zeros(n + GUARD, dtype="i4")
                     c1 = np.zeros(n + GUARD, dtype="i4")
-                    fl = np.zeros(10, dtype="i4")
+                    fl = np.zeros(12, dtype="i4")
                     res.transitions += 1
                     res.events[label] += 1
                     try:
@@ -437,6 +440,8 @@ def run_shard(sks, tier, seed):
                     r = check_counts(exp, n, c0, c1, fl, target, label + (" block=%d" % bs if bs else ""))
                     if not r and n >= 1 and int(fl[9]) != (1 if label == "cpu_serial" else 0):
                         r = ("extra-header", "the header given to the cpu_serial build only is %s in the %s build (variant %d)" % ("active" if fl[9] else "missing", label, variant))
+                    if not r and n >= 1 and int(fl[10]) != 1:
+                        r = ("repeated-source", "a piece of text listed twice among the sources of the build is present %s in the %s build" % ("once" if not fl[10] else "?", label))
                     if r:
                         bad("C16." + r[0], r[0], sk, r[1], target=target, n=n, block=bs)
                     else:
@@ -451,7 +456,7 @@ def run_shard(sks, tier, seed):
                         hist.append((setting, n))
                         c0 = np.zeros(n + GUARD, dtype="i4")
                         c1 = np.zeros(n + GUARD, dtype="i4")
-                        fl = np.zeros(10, dtype="i4")
+                        fl = np.zeros(12, dtype="i4")
                         res.transitions += 1
                         res.events["set_n_threads"] += 1
                         try:
